@@ -228,10 +228,17 @@ func genMsg(t *rapid.T, first bool, consistent bool) MsgDesc {
 	if rapid.IntRange(0, 2).Draw(t, "notc") == 0 {
 		ntc = 0
 	}
+	if rapid.IntRange(0, 11).Draw(t, "manyTCs") == 0 {
+		// long tool-call lists (ordering of more than a dozen merged entries)
+		ntc = rapid.IntRange(4, 9).Draw(t, "ntcMany")
+	}
 	for i := 0; i < ntc; i++ {
 		tc := TCDesc{}
 		if rapid.IntRange(0, 4).Draw(t, "idxNil") != 0 {
 			v := rapid.IntRange(0, 2).Draw(t, "idx")
+			if ntc > 3 {
+				v = rapid.IntRange(0, 6).Draw(t, "idxWide")
+			}
 			tc.Index = &v
 		}
 		if consistent && tc.Index != nil {
